@@ -12,6 +12,7 @@ import ASV.Proofs.Parser.Alias
 import ASV.Proofs.Parser.SubstRule
 import ASV.Proofs.Parser.FuelTop
 import ASV.Proofs.Parser.Reprint11
+import ASV.Proofs.Rulesets
 namespace ASV.C02
 open ASV ASV.Rules ASV.Parser ASV.Grammar ASV.Layout ASV.Reprint
 
@@ -226,6 +227,61 @@ example (t : Tok) (rest : List Tok) (A : Aliases) (rules : List Rule) :
       { cur := some t, rest := subst A rest, aliases := [], rules := rules } := rfl
 
 example : Flat [] := ⟨by simp, by simp, by simp⟩
+
+/-! ### "scaled by the multipliers": rulesets handed to detection runs (`get_ruleset`, its cache,
+    `Ruleset.__post_init__` rescaling rule objects in place, `copy_with_replacements` sharing them) -/
+
+/-- Whatever sequence of rulesets one process asks for (any strictness, taxon, multipliers, rule or
+    category restriction, repetitions), every ruleset handed out — read *after the last request* —
+    holds exactly the rules of its strictness that its restriction wants, each distance being the
+    parsed one (kilobases × 1000, `distances_scaled`) scaled once by the multipliers of the request
+    it was built for: no later request rescales or compounds it (the rule objects of different cached
+    rulesets are never shared).  `parsed` = what `create_rules` returns for a strictness. -/
+theorem rulesets_scaled_once (parsed : String → Except Err (List Rule)) (reqs : List Rulesets.Req)
+    (out : List Rulesets.RS) (st : Rulesets.State) (h : Rulesets.run parsed reqs {} = .ok (out, st)) :
+    out.length = reqs.length ∧
+    ∀ rs ∈ out, ∃ k rules, (k, rs) ∈ st.cache ∧ parsed k.strictness = .ok rules ∧
+      rs.read st.heap = Rulesets.wanted rules k.names k.cats k.mul ∧ rs.mul = k.mul := by
+  obtain ⟨inv, _, hlen, hout⟩ := Rulesets.run_inv parsed reqs {} st out h (fun p hp => by cases hp)
+  refine ⟨hlen, fun rs hrs => ?_⟩
+  obtain ⟨k, hk⟩ := hout rs hrs
+  obtain ⟨_, rules, hp, hr, hm⟩ := inv (k, rs) hk
+  exact ⟨k, rules, hk, hp, hr, hm⟩
+
+/-- one `get_ruleset` call in any reachable state: the ruleset returned is stored under the key of
+    the request (its strictness, its restriction as sets, the multipliers of the options for fungi,
+    `Multipliers()` otherwise), it reads as the spec says, and everything cached before still does -/
+theorem ruleset_of_request (parsed : String → Except Err (List Rule)) (q : Rulesets.Req) (st st' : Rulesets.State)
+    (rs : Rulesets.RS) (h : Rulesets.getRuleset parsed q st = .ok (rs, st')) (inv : Rulesets.Inv parsed st) :
+    Rulesets.Inv parsed st' ∧
+    ∃ k rules, (k, rs) ∈ st'.cache ∧ k.strictness = q.strictness ∧ k.names = sortDedupStr q.names ∧
+      k.cats = sortDedupStr q.cats ∧ Rulesets.reqMul q = .ok k.mul ∧ parsed q.strictness = .ok rules ∧
+      rs.read st'.heap = Rulesets.wanted rules k.names k.cats k.mul := by
+  obtain ⟨inv', ⟨k, hk, h1, h2, h3, h4, h5⟩, _⟩ := Rulesets.getRuleset_inv parsed q st st' rs h inv
+  obtain ⟨_, rules, hp, hr, _⟩ := inv' (k, rs) hk
+  refine ⟨inv', k, rules, hk, h1, h2, h3, ?_, by rw [← h1]; exact hp, hr⟩
+  unfold Rulesets.reqMul
+  cases hf : q.fungi with
+  | false => simp [h4 hf]
+  | true => simp [h5 hf]
+
+/-- `Ruleset.from_files(…, multipliers)` (as repaired by fixes/D60): scaled once -/
+theorem from_files_scaled_once (rules : List Rule) (m : Rulesets.Mul) (h : Rulesets.Heap) :
+    (Rulesets.fromFiles rules m h).1.read (Rulesets.fromFiles rules m h).2 = Rulesets.wanted rules [] [] m :=
+  Rulesets.fromFiles_read rules m h
+
+/-- fungi ×2/×1.5, then bacteria, then fungi ×1/×3 limited to one rule: nothing compounds -/
+example :
+    let parsed : String → Except Err (List Rule) := fun _ =>
+      .ok [{ name := "a", category := "c", cutoff := 10000, neighbourhood := 5000, conditions := .single false "x" },
+           { name := "b", category := "d", cutoff := 20000, neighbourhood := 3000, conditions := .single false "y" }]
+    (match Rulesets.run parsed
+        [⟨"relaxed", [], [], true, (2, 1), (3, 2)⟩, ⟨"relaxed", [], [], false, (1, 1), (1, 1)⟩,
+         ⟨"relaxed", ["b"], [], true, (1, 1), (3, 1)⟩] {} with
+      | .ok (out, st) => out.map fun rs => (rs.read st.heap).map fun r => (r.name, r.cutoff, r.neighbourhood)
+      | .error _ => []) =
+    [[("a", 20000, 7500), ("b", 40000, 4500)], [("a", 10000, 5000), ("b", 20000, 3000)], [("b", 20000, 9000)]] := by
+  decide +kernel
 
 /-! ### the regenerated text parses back (thm 7) -/
 
